@@ -259,6 +259,32 @@ def reachability(ctx, with_parent):
                 if isinstance(r, tuple) and r and r[0] and len(r) > 1 and \
                         r[1] is not None:
                     roots.append((r[1], ["%s(%r)" % (fn, n)], 1))
+        # what the Python-backed helpers hand back for benign arguments
+        ncall = 0
+        arg_vectors = [(), ("Probe page",), ("Module:echo",), ("Template:wrap",),
+                       ("Probe page", 0), ("en",), ("fi", "en"), ("{}", 0),
+                       ("x", "<>"), ("a", True), ("Q42",), ("Q42", "enwiki")]
+        for k in list(envt.keys()):
+            if not isinstance(k, str):
+                continue
+            if not (k.startswith("mw_") or k.endswith("_python")
+                    or k.endswith("_py") or k in ("_python_top_env",)):
+                continue
+            if "wikibase" in k or "wikidata" in k:
+                continue  # network by design (C05 excludes them as well)
+            f = envt[k]
+            if w.lua_kind(f) != "function" and not callable(f):
+                continue
+            for av in arg_vectors:
+                try:
+                    r = pc(f, *av)
+                except Exception:
+                    continue
+                if isinstance(r, tuple) and r and r[0] and len(r) > 1 and \
+                        r[1] is not None:
+                    ncall += 1
+                    roots.append((r[1], ["%s%r" % (k, av)], 1))
+        found["helper_calls"] = ncall
         w.visit_all(roots)
         found["w"] = w
         found["nreq"] = nreq
@@ -521,7 +547,8 @@ def run(run):
         return {"reached": w.reached, "far": w.reached_far, "edges": w.edges,
                 "py": w.py_objects[:60], "npy": len(w.py_objects),
                 "violations": [(k, n, p[-6:]) for k, n, p in w.violations],
-                "nreq": found["nreq"], "names": found["names"]}
+                "nreq": found["nreq"], "names": found["names"],
+                "helper_calls": found.get("helper_calls", 0)}
 
     for with_parent in (True, False):
         status, r, el = par.fork_child(reach_child, (with_parent,), timeout=120)
@@ -533,6 +560,7 @@ def run(run):
                     edges=r["edges"], python_objects=r["npy"],
                     require_names_tried=r["names"],
                     require_names_loaded=r["nreq"],
+                    helper_calls_with_results=r["helper_calls"],
                     python_object_samples=r["py"][:12])
         run.evaluations += r["reached"]
         for i in range(min(r["far"], 5000)):
@@ -586,7 +614,9 @@ def run(run):
         "and through a wrapper template), over everything the module "
         "environment and the frame give access to: raw table fields and "
         "keys, metatables (incl. the string metatable), frame:getParent(), "
-        "mw.getCurrentFrame(), require(n) / _cached_mod(n) / _new_loader(n) "
+        "mw.getCurrentFrame(), the results of every mw_* / *_python helper "
+        "called with 12 benign argument vectors, require(n) / _cached_mod(n) "
+        "/ _new_loader(n) "
         "for every name in the host package.loaded / preload, every built-in "
         ".lua file stem and a list of well-known names, and for every Python "
         "object every attribute that passes the runtime's attribute filter "
@@ -606,8 +636,10 @@ def run(run):
     run.assumptions = [
         "upvalues of Lua closures are not edges (the walk itself shows that "
         "no debug.getupvalue is reachable)",
-        "Python helpers are called only by the attack programs, not by the "
-        "walk (zero-argument accessors excepted)",
+        "Python helpers are called by the walk with a fixed list of benign "
+        "argument vectors only (wikibase helpers, which use the network by "
+        "design, are not called); other arguments are the attack programs' "
+        "business",
         "memory safety of Lua / lupa is out of reach of this harness",
     ]
     run.trusted_base = ["fixtures/lua/* stand-ins (treated like built-in "
